@@ -163,6 +163,18 @@ func parseErrSpec(s string) (error, bool) {
 		if n == "" {
 			return nil, false
 		}
+		// "x<node>": the decoration is applied to the current error value and the RESULT IS THROWN
+		// AWAY (an error value that is decorated again somewhere else, e.g. a shared sentinel):
+		// decorators are pure, so this must leave the error that is reported untouched
+		keep := err
+		discard := false
+		if n[0] == 'x' {
+			discard = true
+			n = n[1:]
+			if n == "" {
+				return nil, false
+			}
+		}
 		switch n[0] {
 		case 'C', 'S', 'H', 'D', 'N':
 			b, ok := unhexStrict(n[1:])
@@ -206,6 +218,9 @@ func parseErrSpec(s string) (error, bool) {
 			err = &wrapErr{pre: string(pre), post: string(post), inner: err}
 		default:
 			return nil, false
+		}
+		if discard {
+			err = keep
 		}
 	}
 	return err, true
